@@ -11,6 +11,40 @@ def class_key(c):
     return ".".join(c["path"])
 
 
+def pick_classes(draw, an, classes, k):
+    """k distinct class indices. Half of the time the first one is taken from the three classes with the most
+    machinery in their bodies (arrays of structs, arrays without a length, switches, sections, length fields):
+    a uniform choice spends most of the budget on classes with two integers in them."""
+    idxs = draw(st.lists(st.integers(0, len(classes) - 1), min_size=k, max_size=k, unique=True))
+
+    def score(c):
+        s = 0
+        for ins in spec.Analysis.flatten(c["body"]):
+            t = ins["tag"]
+            if t == "array":
+                s += 2
+                base = ins["type"].partition(":")[0]
+                if base in an.types and an.types[base][0]["kind"] == "struct":
+                    s += 3
+                if ins.get("length") is None:
+                    s += 2
+            elif t in ("switch", "chunked"):
+                s += 2
+            elif t in ("length", "dummy", "break"):
+                s += 1
+            elif t == "field":
+                base = (ins.get("type") or "").partition(":")[0]
+                if base in an.types and an.types[base][0]["kind"] == "struct":
+                    s += 2
+        return s
+    if len(classes) > k and draw(st.booleans()):
+        top = sorted(range(len(classes)), key=lambda i: (-score(classes[i]), i))[:3]
+        first = draw(st.sampled_from(top))
+        if first not in idxs:
+            idxs[0] = first
+    return idxs
+
+
 @st.composite
 def tree_and_items(draw, features=None, n_classes=3, n_objects=3, value_kw=None, tree_kw=None,
                    with_mode=True, top_level_only=False):
@@ -25,7 +59,7 @@ def tree_and_items(draw, features=None, n_classes=3, n_objects=3, value_kw=None,
     items = []
     if classes:
         k = min(len(classes), n_classes)
-        idxs = draw(st.lists(st.integers(0, len(classes) - 1), min_size=k, max_size=k, unique=True))
+        idxs = pick_classes(draw, an, classes, k)
         vg = valuegen.ValueGen(an, **(value_kw or {}))
         for i in idxs:
             c = classes[i]
